@@ -1737,11 +1737,18 @@ twin('C08', 'copyrest-bound-in-local', PACKPY, 'FileStoragePacker.copyRest',
             ipos = self.copyOne(ipos)''')
 breaker('C16', 'ds-loadbefore-ignores-pack-mark', 'C16.R14', DSPY,
         'DemoStorage.loadBefore',
-        '''            if tid <= self._packed_to:
-                # ... or there were, and a pack of the changes has removed
-                # them: the base's revision would be the wrong answer.
-                return None
-''', '''''')
+        '''            if tid <= self._packed_to:''',
+        '''            if False:''')
+breaker('C16', 'ds-loadbefore-nothing-for-every-object', 'C16.R14', DSPY,
+        'DemoStorage.loadBefore',
+        '''                first = maxtid
+                t = self.changes.loadBefore(oid, first)
+                while t:
+                    first = t[1]
+                    t = self.changes.loadBefore(oid, first)
+                if first <= self._packed_to:
+                    return None''',
+        '''                return None''')
 breaker('C08', 'swap-pool-emptied-in-own-section', 'C08.R7', FSPY,
         'FileStorage.pack',
         '''            with self._files.write_lock():
